@@ -31,7 +31,7 @@ def _hook(ev, args):
     if not m["on"] or ev not in _EVENTS:
         return
     m["count"] += 1
-    for a in args[:2]:
+    for a in (args[1:2] if ev == "os.symlink" else args[:2]):  # (a link's content is not a path that is touched)
         if isinstance(a, (str, bytes, os.PathLike)):
             try:
                 p = os.fsdecode(a)
@@ -332,6 +332,7 @@ async def script(loop, ctx):
             uses += [f"STATUS {nm_} (MESSAGES UNSEEN)", f"SELECT {nm_}", "FETCH 1:* (FLAGS BODY.PEEK[])", "STORE 1 +FLAGS (\\Deleted)", "EXPUNGE", f"APPEND {nm_} {{3+}}\r\nx\r\n", "UNSELECT", f"DELETE {nm_}"]
         uses += ['LIST "" *', 'LSUB "" *']
         leftovers = 0
+        trail = []
         for cmd in steps + uses:
             if s.writer.closed or s.wire_error:
                 s = rig.session("E")
@@ -339,6 +340,7 @@ async def script(loop, ctx):
             await rig.settle()
             s.pump()
             counts["leftover_link_commands"] += 1
+            trail.append(f"{cmd[:40]} -> {r.status}")
             problems = []
             if _MON["events"]:
                 problems.append(("outside-path-touched", f"{cmd}: {_MON['events'][:4]}"))
@@ -357,6 +359,8 @@ async def script(loop, ctx):
                                        witness={"kind": problems[0][0], "detail": problems[0][1], "all": [p[0] for p in problems], "position": "leftover-link", "name": cmd, "encoding": "atom", "reply": r.brief(),
                                                 "transcript": s.log[-8:], "server_log": [x[2][:200] for x in rig.log_records[-4:]]}))
                 break
+        else:
+            cases.append(Case.make(f"s{k}.leftover", HELD, spec=ctx["spec"], nontrivial=True, key=common.h(["leftover", k]), sample={"position": "leftover-link", "name": "what a failed RENAME leaves behind", "encoding": "atom", "reply": trail[:12]}))
         for dp, dns, fns in os.walk(root):
             leftovers += sum(1 for x in dns + fns if os.path.islink(os.path.join(dp, x)))
         counts["leftover_links_found_in_the_mail_root"] += leftovers
